@@ -83,6 +83,7 @@ class PoolRun:
         self.draining = False
         self.n_req = 0
         self.calls = {}          # req -> number of calls of the worker function
+        self.empty_el = None     # identity of the empty map element the iterator just yielded
         self.gates = {}          # tid -> worker gate future
         self.fin = {}            # tid -> 'r' | 'x'
         self.cbgates = {}        # tid -> callback gate future
@@ -182,7 +183,16 @@ class PoolRun:
             # called by the pool to create the coroutine: func(*args, **kwargs) / star_function
             if any(isinstance(a, Bad) for a in args) or kwargs.get("bad"):
                 raise TypeError("bad call")
-            if kwargs:
+            if not args and not kwargs:
+                # an *empty* element of starmap / doublestarmap: func() - the element's identity
+                # was noted by the argument iterator right before it yielded (the pool calls
+                # func synchronously after next())
+                pend, run.empty_el = run.empty_el, None
+                if pend is None:
+                    ok, req, k, w = False, -1, 0, "rp"
+                else:
+                    ok, (req, k, w) = True, pend
+            elif kwargs:
                 ok = set(kwargs) == {"req", "k", "w", "shape"} and kwargs["shape"] == 2
                 req, k, w = kwargs.get("req"), kwargs.get("k"), kwargs.get("w")
             elif len(args) == 1 and isinstance(args[0], tuple):
@@ -308,6 +318,10 @@ class PoolRun:
                 yield 5 if stars else Bad()
             elif stars == 0:
                 yield (req, k, w, 0)
+            elif (req * 7 + k * 3) % 4 == 0:
+                # unusual but legal: an element that unpacks to no arguments at all -> func()
+                self.empty_el = (req, k, w)
+                yield [(), []][k % 2] if stars == 1 else {}
             elif stars == 1:
                 yield (req, k, w, 1)
             else:
